@@ -115,7 +115,7 @@ func (d *DialCtl) Results() []bool {
 	return append([]bool{}, d.results...)
 }
 
-func (d *DialCtl) MarkClosed() { atomic.StoreInt64(&d.closedAt, time.Now().UnixNano()) }
+func (d *DialCtl) MarkClosed()     { atomic.StoreInt64(&d.closedAt, time.Now().UnixNano()) }
 func (d *DialCtl) AfterClose() int { return int(atomic.LoadInt32(&d.afterClose)) }
 
 type RigClient struct {
@@ -261,16 +261,31 @@ func (r *Rig) Tok(prefix string) string {
 // ---- asynchronous calls -----------------------------------------------------
 
 type Pending struct {
-	Kind   string // call | retry | notify | sub | noctx
-	Tok    string
-	Plan   Plan
-	Done   chan struct{}
-	Res    Result
-	Err    error
-	Ch     <-chan Item
-	Cancel context.CancelFunc
-	Issued time.Time
-	probes int
+	Kind         string // call | retry | notify | sub | noctx
+	Tok          string
+	Plan         Plan
+	Done         chan struct{}
+	Res          Result
+	Err          error
+	Ch           <-chan Item
+	Cancel       context.CancelFunc
+	Issued       time.Time
+	probes       int
+	firstProbeOK time.Time
+}
+
+// mayBeDeclaredLost: three probes round-tripped after the call went quiet. A retry-tagged
+// call may legitimately be asleep between two attempts: the sleep in progress when the link
+// became healthy (time H) is at most 0.5*(H-issued)+200ms long, so it gets that much patience.
+func (p *Pending) mayBeDeclaredLost(now time.Time) bool {
+	if p.probes < 3 {
+		return false
+	}
+	if p.Kind != "retry" {
+		return true
+	}
+	patience := time.Duration(0.75*float64(p.firstProbeOK.Sub(p.Issued))) + time.Second
+	return now.Sub(p.firstProbeOK) >= patience
 }
 
 func (p *Pending) Returned() bool {
@@ -388,11 +403,15 @@ func (r *Rig) AwaitAll(c *RigClient, calls []*Pending, budget time.Duration) (lo
 		if len(cand) > 0 && c != nil && atomic.LoadInt32(&c.closed) == 0 {
 			if err := r.Probe(c, 1500*time.Millisecond); err == nil {
 				all := true
+				now := time.Now()
 				for _, p := range cand {
 					if !p.Returned() {
 						p.probes++
+						if p.firstProbeOK.IsZero() {
+							p.firstProbeOK = now
+						}
 					}
-					if p.probes < 3 {
+					if !p.mayBeDeclaredLost(now) {
 						all = false
 					}
 				}
